@@ -153,6 +153,18 @@ def run(ctx, res):
         mi = f.calls("mtbl_iter_init")
         ok4 = len(mi) == 1 and [canon(a) for a in call_args(mi[0])[:3]] == ["reader_iter_seek", "reader_iter_next", "reader_iter_free"]
         res.check(ok4, "C02.R2", site(f, "callbacks"), "iterator uses reader_iter_seek/next/free", "callbacks are %s" % ([canon(a) for a in call_args(mi[0])[:3]] if mi else None))
+    for cn in ("reader_iter", "reader_iter_init"):
+        cf = prog.need(cn, U)
+        evc = APE.run(prog, cg, cf, bound=1)
+        for p in evc.paths:
+            if p.end != "exit" or p.ret() == ("c", 0):
+                continue
+            st = {re.sub(r"@\d+", "", e.a).split("->")[-1]: e.b for e in p.events if e.kind == "store" and "->" in e.a}
+            res.check(st.get("valid") == ("c", 1) and st.get("first") == ("c", 1), "C02.R2", site(cf, "starts-valid-and-first"),
+                      "a new iterator starts with first = true and valid = true (next itself walks on when the seek ran off its block)",
+                      "a new iterator starts with valid := %s, first := %s: a lookup that lands just behind a block's last key ends at once instead of continuing "
+                      "in the next block" % (APE.vstr(st["valid"]) if "valid" in st else None, APE.vstr(st["first"]) if "first" in st else None),
+                      cf.loc(cf.body), p.describe(cf))
     rii = prog.need("reader_iter_init", U)
     res.saw(rii)
     evp = APE.run(prog, cg, rii, bound=1)
